@@ -44,8 +44,10 @@ func newEntry(key, value []byte, valueType ValueType, seqNum uint64) *entry {
 	keyCopy := make([]byte, len(key))
 	copy(keyCopy, key)
 
+	// A nil value is reserved for deletion markers; a put with a nil or
+	// empty value stores an empty, non-nil value
 	var valueCopy []byte
-	if value != nil {
+	if value != nil || valueType == TypeValue {
 		valueCopy = make([]byte, len(value))
 		copy(valueCopy, value)
 	}
